@@ -13,6 +13,10 @@ pub const HDR_VERSION: u8 = 0b001;
 /// Indicates that this is an SMBus command code
 pub(crate) const MCTP_SMBUS_COMMAND_CODE: u8 = 0x0F;
 
+/// The longest packet the one byte SMBus byte count can describe:
+/// destination, command code, byte count, 255 counted bytes and the PEC
+pub(crate) const MCTP_SMBUS_MAX_PACKET_LEN: usize = 259;
+
 bitfield! {
     /// The MCTP SMBus/I2C Packet Header
     pub struct MCTPSMBusHeader([u8]);
@@ -82,7 +86,7 @@ impl<'a, 'b> MCTPSMBusPacket<'a, 'b> {
     ///
     /// Currently this just sets the total byte count.
     fn finalise(&mut self) {
-        self.smbus_header.set_byte_count(self.len() as u8 - 4);
+        self.smbus_header.set_byte_count((self.len() - 4) as u8);
     }
 }
 
